@@ -1065,7 +1065,8 @@ Definition quiet_tok (t : tok) : bool :=
   match t with
   | TLoopBegin _ | TLoopBreak | TLoopEnd | TDiv _ _ _ | TSub _ | TValue _ _ _
   | TTime _ | TPlayFrom _ | TTimeSignature _ | TRpnDirect _ _ (* may write a runtime error entry *)
-  | TPlay _ _ (* lexes its parts *) | TDefStr _ _ (* assigns a variable *) => false
+  | TPlay _ _ (* lexes its parts *) | TDefStr _ _ (* assigns a variable *)
+  | TSysEx _ _ (* may write a runtime error entry *) => false
   | _ => true
   end.
 
@@ -1084,7 +1085,12 @@ Proof.
            try discriminate; intros E; injection E as <-; reflexivity]
   | solve [unfold exec_voice;
            match goal with |- context [match ?a with [] => _ | _ => _ end] => destruct a as [|a0 [|a1 ar]] end;
-           intros E; injection E as <-; reflexivity] ].
+           intros E; injection E as <-; reflexivity]
+  | (* TempoChange *)
+    solve [intros E; apply (exec_tempo_change_inv (fun x => ls_of_song x = ls_of_song s)) in E;
+           [exact E | intros s0 v H0; exact H0 | intros s0 f H0; exact H0 | reflexivity]]
+  | (* GSEffect *)
+    solve [intros E; apply exec_gs_effect_cases in E; destruct E as (evs & _ & ->); reflexivity] ].
 Qed.
 
 Definition Pls (ls0 : lexstate) (r : res song) : Prop :=
